@@ -50,6 +50,29 @@ def corpus():
             ["assign", "<p>s", ADD(S, DT), []],
             ["if", ["expr", GT(S, C(2))], [["assign", "<p>s", C(0), []], ["switch", "init"]], None],
             ["assign", "<state>y", ADD(Y, MUL(S, F(T, Y))), []], pg.STEP]}], "initial": "init"})
+    # a step that FAILS in a phase whose default successor is a different phase (the successor must already be stored)
+    add("fail_in_phase_with_other_successor", {"phases": [
+        {"name": "boot", "next": "primary", "ops": [["assign", "<p>s", ADD(S, C(1)), []],
+                                                    ["if", ["expr", LT(S, C(2))], [["fail"]], None],
+                                                    ["assign", "<state>y", ADD(Y, F(T, Y)), []], pg.STEP]},
+        {"name": "primary", "next": "primary", "ops": [["assign", "<p>s", ADD(S, DT), []],
+                                                       ["if", ["expr", GT(S, C(4))], [["assign", "<p>s", C(0), []], ["switch", "boot"]], None],
+                                                       ["assign", "<state>y", MUL(Y, C(2)), []], pg.STEP]}], "initial": "boot"})
+    # two phases built with the SAME builder label (statement ids coincide), a same-named user-type temporary whose last use
+    # in one phase has the id of an earlier, non-last use in the other
+    add("coinciding_statement_ids", {"shared_builder_label": "step", "phases": [
+        {"name": "boot", "next": "primary", "ops": [["assign", "u", F(T, Y), []], ["assign", "<state>y", ADD(Y, MUL(DT, V("u"))), []],
+                                                    ["assign", "<p>s", ADD(S, C(1)), []], pg.STEP]},
+        {"name": "primary", "next": "primary", "ops": [["assign", "u", F(T, Y), []], ["assign", "w", ADD(Y, MUL(DT, V("u"))), []],
+                                                       ["assign", "<p>s", ["call", "<builtin>norm_2", [V("u")], {}], []],
+                                                       ["assign", "<state>y", ADD(V("w"), V("u")), []], pg.STEP]}], "initial": "boot"})
+    # a user-type temporary whose LAST use is inside a loop statement (it must stay alive for every iteration)
+    add("last_use_in_loop_builtin", pg.P1([["assign", "u", ADD(Y, Y), []], ["assign", "a", ["call", "<builtin>array", [C(3)], {}], []],
+                                           ["assign", ["sub", "a", V("i")], ADD(["call", "<builtin>norm_2", [V("u")], {}], V("i")), [["i", C(0), C(3)]]],
+                                           ["assign", "<p>s", ["sub", V("a"), C(1)], []], pg.STEP]))
+    add("last_use_in_loop_usertype", pg.P1([["assign", "u", ADD(Y, Y), []], ["assign", "w", Y, []],
+                                            ["assign", "w", ADD(V("w"), V("u")), [["i", C(0), C(2)]]],
+                                            ["assign", "<state>y", V("w"), []], pg.STEP]))
     add("cond_expr", pg.P1([["assign", "<p>s", ["if", LT(S, C(0)), MUL(S, C(-1)), ADD(S, C(1))], []], pg.STEP]))
     add("cond_expr_nested", pg.P1([["assign", "<p>s", ["if", LT(S, C(0)), ["if", LT(DT, C(1)), C(1), C(2)],
                                                          ["if", GT(S, C(5)), C(3), S]], []], pg.STEP]))
